@@ -354,6 +354,8 @@ def _(mod):
     for st in mod.body:
         if isinstance(st, ast.ClassDef) and st.name == "Decryptor":
             st.body.insert(0, parse_stmt("_cipher_cache = {}"))
+            f = get_func(mod, "Decryptor.decrypt")
+            f.body.insert(0, parse_stmt("self._cipher_cache[record.record_type] = isserver"))
             return True
 
 
@@ -1418,3 +1420,13 @@ def _(mod):
         a, b = n.test.values
         return ast.If(test=a, body=[ast.If(test=b, body=n.body, orelse=[])], orelse=[])
     return edit_first(f, pred, ed)
+
+
+@variant("c18-preserve-class-constant-table", "preserve", ["C18", "C04", "C01"], SES, desc="a read-only lookup table added at class level")
+def _(mod):
+    for st in mod.body:
+        if isinstance(st, ast.ClassDef) and st.name == "Session":
+            st.body.insert(0, parse_stmt("RECORD_NAMES = {20: 'ccs', 21: 'alert', 22: 'handshake', 23: 'data'}"))
+            f = get_func(mod, "Session.handle_tls_record")
+            f.body.insert(0, parse_stmt("logging.debug(self.RECORD_NAMES.get(record.record_type, '?'))"))
+            return True
